@@ -356,7 +356,7 @@ class ExponentiatedGradient(BaseEstimator, MetaEstimatorMixin):
             if self.weights_[t] == 0:
                 pred[t] = np.zeros(len(X))
             else:
-                pred[t] = self._hs[t](X)
+                pred[t] = np.asarray(self._hs[t](X))
 
         if isinstance(self.constraints, ClassificationMoment):
             positive_probs = pred[self.weights_.index].dot(self.weights_).to_frame()
